@@ -75,3 +75,47 @@ func joinLines(l []string) string {
 	}
 	return out
 }
+
+// TestRegressIdentityReflection — finding C16-identity-reflection, replayed without the property-testing library.
+// A party that holds no long-term key does an ordinary ephemeral exchange with its own ephemeral key, decrypts the
+// victim's auth message and sends exactly that message back (both roles sign the same challenge). The victim must
+// not end up with an authenticated connection to "itself".
+func TestRegressIdentityReflection(t *testing.T) {
+	var vEph, aEph [32]byte
+	vEph[0], aEph[0] = 0x50, 0x58
+	feed.reset()
+	var wg sync.WaitGroup
+	v, _, err := startEnd("V", lib.Key(2), vEph, &wg)
+	if err != nil {
+		t.Fatalf("victim sent no ephemeral key: %v", err)
+	}
+	defer func() { v.c.Close(); wg.Wait() }()
+	s, err := newRefSession(aEph, v.ephPub)
+	if err != nil {
+		t.Fatal(err)
+	}
+	v.c.in.Write(refEphMsg(s.locPub[:]))
+	sealed, err := v.c.out.ReadN(refSealed)
+	if err != nil {
+		t.Fatalf("victim sent no auth frame: %v", v.wait().err)
+	}
+	plain, err := s.open(sealed)
+	if err != nil {
+		t.Fatalf("auth frame does not open under the reference keys: %v", err)
+	}
+	pub, sig, _, err := refParseAuth(plain)
+	if err != nil {
+		t.Fatal(err)
+	}
+	v.c.in.Write(s.sealStream(refAuthMsg(pub, sig)))
+	v.c.in.Close()
+	res := v.wait()
+	lib.Case("TestRegressIdentityReflection", lib.FP(1), true, fmt.Sprintf("accepted:%v", res.err == nil))
+	if res.err == nil {
+		if lib.IsKnown(knownIdentityReflection) {
+			lib.ObservedKnown(knownIdentityReflection)
+			return
+		}
+		t.Fatalf("MakeSecretConnection returned an authenticated connection with RemotePubKey %x == the local key, to a party that holds no long-term key and merely sent the local auth message back", res.sc.RemotePubKey().Bytes())
+	}
+}
